@@ -117,7 +117,8 @@ func newWorld(run *evid.Run, prefix string) *world {
 	return w
 }
 
-var scopeTexts = []string{"", "repository:a:pull", "repository:a:pull,push repository:c:pull", "registry:catalog:*", "repository:a/b:push other:x:y", "foo repository:d:delete", "repository:a:pull registry:catalog:* zzz:a:b"}
+var scopeTexts = []string{"repository:../other/blah:pull", "repository:bar/../../x:push repository:a//b:pull", "repository:a/:pull repository:./a:pull repository:..:delete", "repository:a/./b:pull,push repository:/abs:pull",
+	"", "repository:a:pull", "repository:a:pull,push repository:c:pull", "registry:catalog:*", "repository:a/b:push other:x:y", "foo repository:d:delete", "repository:a:pull registry:catalog:* zzz:a:b"}
 
 // callerScope returns the scope to put in the context and the scope the backend must see.
 func (w *world) callerScope(rng *rand.Rand) (ociauth.Scope, ociauth.Scope, string) {
